@@ -391,6 +391,16 @@ def starts(tier: str) -> List[Tuple[str, Any, Dict[int, Any]]]:
     for sk in V.am_chains(3, chain_leaves) + (V.am_chains(4, [("var", "x"), kx])[:] if tier != "quick" else []):
         roles = slot_roles(sk)
         out.append((sk_str(sk), sk, {s_: 2 + i for i, s_ in enumerate(sorted(roles))}))
+    # small equations: every pairing of five side forms (a coefficient move followed by addend moves needs both)
+    sides = [("var", "x"), kx, ("add", ("var", "x"), ("const", 0)), ("add", ("var", "y"), ("const", 0)),
+             ("add", kx, ("var", "y"))]
+    from ..trees import renumber
+
+    for l_ in sides:
+        for r_ in sides:
+            sk = renumber(("eq", l_, r_))
+            roles = slot_roles(sk)
+            out.append((sk_str(sk), sk, {s_: 2 + 2 * i for i, s_ in enumerate(sorted(roles))}))
     extra = ["(x * y) * (b + c)", "2x * y + 3x", "2x * y", "4x + (2x + y)", "5 + 3x + y", "3x = 6", "2 * 3x = 12", "x - (y + 3 + z) = 2",
              "x + 2 + y = 3", "(z + 3) * (x + 2y)", "4 / y * z", "7 - 1.5^x", "x / (y / 2) + 1", "4x^2 + 2x^2 + x", "x^2 * x^3 * x",
              "(1 / 40000 / 50000) * 40000 * 50000 + x", "x * (3 / 60000 / 60000)", "0.00002 * 0.00003 + x", "y = x / (1 / 200000 / 300000)"]
